@@ -17,8 +17,7 @@ SubsetsOf(base, vals) ==
 \* only the empty set, the singletons, the pairs and the full set
 SmallSubsetsOf(base, vals) ==
     {[k \in DOMAIN base |-> IF k \in S THEN <<vals[k]>> ELSE base[k]] :
-        S \in {T \in SUBSET (DOMAIN vals) : \/ \E a, b \in DOMAIN vals : T = {a, b}
-                                             \/ T = {} \/ T = DOMAIN vals}}
+        S \in {{a, b} : a, b \in DOMAIN vals} \cup {{}, DOMAIN vals}}
 
 (***************************************************************************)
 (* Entities and nested maps                                                *)
@@ -113,5 +112,86 @@ SentCase(c, sv, tag, FF) ==
     [op |-> "decode2", tag |-> tag, c |-> c, sv |-> <<sv>>, wire |-> HostEncode(c, sv, FF)]
 \* a decode2 case from raw bytes
 RawCase(w, tag) == [op |-> "decode2", tag |-> tag, c |-> 0, sv |-> << >>, wire |-> w]
+
+
+(***************************************************************************)
+(* Responses: minimal value + a value for every optional member            *)
+(***************************************************************************)
+FullOf(min, vals) == [k \in DOMAIN min |-> IF k \in DOMAIN vals THEN <<vals[k]>> ELSE min[k]]
+\* record restricted / extended: every name of `names` present, absent ones GNone
+Blank(names) == [k \in names |-> GNone]
+
+GiOptMin == [k \in AllNames("GetInfoOptions") |-> IF k = "rk" THEN TRUE ELSE IF k = "up" THEN FALSE ELSE GNone]
+GiOptOptVals(FF) ==
+    LET base == [uv |-> TRUE, plat |-> FALSE, credMgmt |-> TRUE, clientPin |-> FALSE, largeBlobs |-> TRUE,
+                 pinUvAuthToken |-> TRUE]
+        full == [ep |-> TRUE, uvAcfg |-> FALSE, alwaysUv |-> TRUE, authnrCfg |-> TRUE, bioEnroll |-> FALSE,
+                 uvBioEnroll |-> FALSE, setMinPINLength |-> TRUE, makeCredUvNotRqd |-> FALSE,
+                 credentialMgmtPreview |-> TRUE, userVerificationMgmtPreview |-> FALSE,
+                 noMcGaPermissionsWithClientPin |-> TRUE]
+    IN  IF GIF \in FF THEN base @@ full ELSE base
+GiOptFull(FF) == FullOf(GiOptMin, GiOptOptVals(FF))
+
+CertMin     == Blank(AllNames("Certifications"))
+CertOptVals == [FIDO |-> 1, CC_EAL |-> 2, FIPS_CMVP_2 |-> 3, FIPS_CMVP_3 |-> 4, FIPS_CMVP_2_PHY |-> 5, FIPS_CMVP_3_PHY |-> 6]
+CertFull    == FullOf(CertMin, CertOptVals)
+
+GiMin == [k \in AllNames("GetInfoResp") |->
+            IF k = "versions" THEN <<N_FIDO_2_0, N_U2F_V2>> ELSE IF k = "aaguid" THEN Pattern(50, 16) ELSE GNone]
+GiOptionalVals(FF) ==
+    LET base == [extensions |-> <<N_hmacSecret, N_credProtect>>, options |-> GiOptFull(FF),
+                 maxMsgSize |-> BN(1200), pinUvAuthProtocols |-> <<2, 1>>, maxCredentialCountInList |-> BN(10),
+                 maxCredentialIdLength |-> BN(255), transports |-> <<N_nfc, N_usb>>,
+                 algorithms |-> <<ALG_ES256, ALG_EdDSA>>, maxSerializedLargeBlobArray |-> BN(1024)]
+        full == [forcePINChange |-> FALSE, minPINLength |-> BN(4), firmwareVersion |-> BN(66051),
+                 maxCredBlobLength |-> BN(32), maxRPIDsForSetMinPINLength |-> BN(1),
+                 preferredPlatformUvAttempts |-> BN(3), uvModality |-> BN(2), certifications |-> CertFull,
+                 remainingDiscoverableCredentials |-> BN(24), vendorPrototypeConfigCommands |-> BN(0),
+                 attestationFormats |-> <<N_packed, N_none>>, uvCountSinceLastPinEntry |-> BN(300),
+                 longTouchForReset |-> TRUE]
+    IN  IF GIF \in FF THEN base @@ full ELSE base
+GiFull(FF) == FullOf(GiMin, GiOptionalVals(FF))
+
+StmtNone   == [packed |-> FALSE, alg |-> 0, sig |-> << >>, x5c |-> GNone]
+StmtPacked == [packed |-> TRUE, alg |-> ALG_ES256, sig |-> Pattern(60, 70), x5c |-> GNone]
+StmtX5c    == [StmtPacked EXCEPT !.x5c = << <<Pattern(61, 300)>> >>]
+
+McRespMin == [fmt |-> N_packed, authData |-> Pattern(51, 37), attStmt |-> GNone, epAtt |-> GNone,
+              largeBlobKey |-> GNone, unsignedExtensionOutputs |-> GNone]
+McRespOptVals == [attStmt |-> StmtPacked, epAtt |-> TRUE, largeBlobKey |-> Pattern(52, 32),
+                  unsignedExtensionOutputs |-> << >>]
+
+DescOwned(i) == [id |-> Pattern(70 + i, 20 + i), type |-> N_publicKey]
+GaRespMin == [credential |-> DescOwned(1), authData |-> Pattern(53, 37), signature |-> Pattern(54, 71),
+              user |-> GNone, numberOfCredentials |-> GNone, userSelected |-> GNone, largeBlobKey |-> GNone,
+              unsignedExtensionOutputs |-> GNone, epAtt |-> GNone, attStmt |-> GNone]
+GaRespOptVals == [user |-> UserFull, numberOfCredentials |-> BN(3), userSelected |-> TRUE,
+                  largeBlobKey |-> Pattern(55, 32), unsignedExtensionOutputs |-> << >>, epAtt |-> FALSE,
+                  attStmt |-> StmtX5c]
+
+CpRespMin == Blank(AllNames("CpResp"))
+CpRespOptVals == [keyAgreement |-> EcdhKey(56), pinUvAuthToken |-> Pattern(57, 32), pinRetries |-> 8,
+                  powerCycleState |-> FALSE, uvRetries |-> 3]
+
+CoseOfKind(k) ==
+    [kind |-> k, x |-> (IF CoseConst(k).hasX THEN Pattern(58, 32) ELSE << >>),
+     y |-> (IF CoseConst(k).hasY THEN Pattern(59, 32) ELSE << >>)]
+
+\* what a response carries of an rp: no icon (never re-emitted)
+RpOut == [id |-> AsciiPattern(1, 11), name |-> <<AsciiPattern(2, 9)>>, icon |-> GNone]
+CmRespMin == Blank(AllNames("CmResp"))
+CmRespOptVals(FF) ==
+    LET base == [existingResidentCredentialsCount |-> BN(5), maxPossibleRemainingResidentCredentialsCount |-> BN(20),
+                 rp |-> RpOut, rpIDHash |-> Pattern(62, 32), totalRPs |-> BN(2), user |-> UserFull,
+                 credentialID |-> DescOwned(2), publicKey |-> CoseOfKind("p256"), totalCredentials |-> BN(300),
+                 credProtect |-> 3, largeBlobKey |-> Pattern(63, 32)]
+    IN  IF TPP \in FF THEN base @@ [thirdPartyPayment |-> TRUE] ELSE base
+
+LbRespMin == [config |-> GNone]
+
+RespCase(kind, v, cap, tag) ==
+    [op |-> "encode2", tag |-> tag, resp |-> [kind |-> kind, v |-> v], cap |-> cap, stale |-> << >>]
+TypeEncCase(tn, v, tag) == [op |-> "encode_type", tag |-> tag, type |-> tn, v |-> v]
+TypeDecCase(tn, b, tag) == [op |-> "decode_type", tag |-> tag, type |-> tn, bytes |-> b]
 
 =============================================================================
